@@ -288,7 +288,7 @@ func main() {
 		"aborted inputs: 10 kinds of run-time panic, panics after side effects, panics in deferred calls, during another panic, compile and parse errors - each also inside :debug, and :inspect with and without an inspector) "+
 		"fed through EvalReader / EvalFile / Repl / a ReadParseEvalPrint loop over a line-by-line Readline / ParseEvalPrint per input, OptTrapPanic set, 4 option sets; oracle: the rec(input, value) log equals that of a fresh interpreter "+
 		"given one Eval per successful input (side effects before the panic for aborted ones), Run record and battery as above; non-trivial = at least one aborted input", nRandom))
-	wd := vh.NewWatchdog(rep, 120*time.Second) // generous: the machine may be heavily loaded; a real hang is still reported
+	wd := vh.NewWatchdog(rep, 180*time.Second) // generous: the machine may be heavily loaded; a real hang is still reported
 	cw := vh.NewCases(a, "From Coq Require Import List Arith ZArith.\nFrom Verif Require Import C13.Model C12.Model.\nImport ListNotations.", "case", "mismatches", 400)
 	runCorpus(rep)
 
